@@ -124,6 +124,13 @@ def check(run):
             run.violation('R12', 'search-covers-buffer', orr.norm, orr.loc(c),
                           'the search for the blank line starts at %s with length %s instead of covering every byte received so far: a terminator that straddles two reads (cut 1-3 bytes before the end of the header) is never found, that request is never answered and - one connection at a time - nobody else is served' % (q.render(orr, c['args'][0]), q.render(orr, c['args'][1])))
 
+    run.clause('the connection never goes idle unnoticed: every path through on_read that does not close the connection leaves an operation pending on it (a read, the response write, or a posted re-entry of on_read) - otherwise the client\'s end-of-file is never seen, the connection is never closed and the next client is never accepted')
+    busy = [c for c in orr.calls() if q.callee_name(c) in (H + '::read', H + '::close_connection') or (q.callee_name(c) or '').split('<')[0].endswith('async_write') or (q.callee_name(c) or '').split('<')[0].endswith('async_read_some')]
+    busy += [n for (d, fn_, n) in handlers.bound_member_functions(fx).get(orr.usr, []) if fn_.usr == orr.usr and d == 'post']
+    busy += [c for c in orr.calls() if (q.callee_name(c) or '').split('<')[0].endswith('::post')]
+    run.check(bool(busy) and q.on_all_paths(orr, busy), 'R10', 'connection-never-idle', orr.norm, orr.loc(),
+              'a path through on_read returns with nothing pending on the connection (e.g. after a request for a path registered as stalling): the server never learns that the client hung up, never closes the connection and - one connection at a time - never accepts another client',
+              'every path ends in a read, a write, a posted re-entry or close_connection()')
     run.clause('pipelining: after a keep-alive response the buffer is re-examined (on_read re-entered) before waiting for more bytes')
     ow = fx.fn1(H + '::on_write')
     run.touch(ow)
